@@ -113,6 +113,11 @@ pub fn permute(f: &FactSet, mode: OrderMode, rng: &mut Rng) -> FactSet {
 /// Builder path. Annotation facts are issued record by record in FactSet order, or interleaved
 /// at random across records and kinds when `interleave` is given.
 pub fn via_builder(f: &FactSet, interleave: Option<&mut Rng>, defaults: bool) -> Built {
+    via_builder_opts(f, interleave, defaults, false)
+}
+
+/// `vary_names`: later calls for an already registered record may use another name
+pub fn via_builder_opts(f: &FactSet, interleave: Option<&mut Rng>, defaults: bool, vary_names: bool) -> Built {
     // flattened annotation calls: (kind, record index, Some(term) | None = add_* only)
     let mut calls: Vec<(usize, usize, Option<u32>)> = Vec::new();
     for k in 0..3 {
@@ -137,6 +142,20 @@ pub fn via_builder(f: &FactSet, interleave: Option<&mut Rng>, defaults: bool) ->
         }
         rng.shuffle(&mut calls);
     }
+    // Names: the first call for a record carries the record's name; later calls for the same
+    // record may carry another spelling (a user merging two sources). The record and everything
+    // linked to it so far must survive such a call.
+    let mut call_names: Vec<Option<&'static str>> = vec![None; calls.len()];
+    if vary_names {
+        let mut seen: std::collections::BTreeSet<(usize, usize)> = std::collections::BTreeSet::new();
+        let mut x: u64 = 0x9e37_79b9_7f4a_7c15 ^ (calls.len() as u64);
+        for (n, (k, i, _)) in calls.iter().enumerate() {
+            x = x.wrapping_mul(6_364_136_223_846_793_005).wrapping_add(1_442_695_040_888_963_407);
+            if !seen.insert((*k, *i)) && (x >> 33) % 3 == 0 {
+                call_names[n] = Some(if f.recs[*k][*i].name.is_empty() || (x >> 40) % 2 == 0 { "late name" } else { "" });
+            }
+        }
+    }
     flatten(guard(|| -> Result<Ontology, String> {
         let mut b = Builder::new();
         for t in &f.terms {
@@ -149,24 +168,25 @@ pub fn via_builder(f: &FactSet, interleave: Option<&mut Rng>, defaults: bool) ->
                 .map_err(|e| format!("add_parent({p},{c}): {e}"))?;
         }
         let mut b = b.connect_all_terms();
-        for (k, i, t) in &calls {
+        for (n, (k, i, t)) in calls.iter().enumerate() {
             let r = &f.recs[*k][*i];
+            let name: &str = call_names[n].unwrap_or(r.name.as_str());
             match (k, t) {
-                (0, None) => b.add_gene(&r.name, GeneId::from(r.id)),
+                (0, None) => b.add_gene(name, GeneId::from(r.id)),
                 (1, None) => {
-                    b.add_omim_disease(&r.name, OmimDiseaseId::from(r.id));
+                    b.add_omim_disease(name, OmimDiseaseId::from(r.id));
                 }
                 (2, None) => {
-                    b.add_orpha_disease(&r.name, OrphaDiseaseId::from(r.id));
+                    b.add_orpha_disease(name, OrphaDiseaseId::from(r.id));
                 }
                 (0, Some(t)) => b
-                    .annotate_gene(GeneId::from(r.id), &r.name, HpoTermId::from_u32(*t))
+                    .annotate_gene(GeneId::from(r.id), name, HpoTermId::from_u32(*t))
                     .map_err(|e| format!("annotate_gene: {e}"))?,
                 (1, Some(t)) => b
-                    .annotate_omim_disease(OmimDiseaseId::from(r.id), &r.name, HpoTermId::from_u32(*t))
+                    .annotate_omim_disease(OmimDiseaseId::from(r.id), name, HpoTermId::from_u32(*t))
                     .map_err(|e| format!("annotate_omim_disease: {e}"))?,
                 (_, Some(t)) => b
-                    .annotate_orpha_disease(OrphaDiseaseId::from(r.id), &r.name, HpoTermId::from_u32(*t))
+                    .annotate_orpha_disease(OrphaDiseaseId::from(r.id), name, HpoTermId::from_u32(*t))
                     .map_err(|e| format!("annotate_orpha_disease: {e}"))?,
                 _ => unreachable!(),
             }
@@ -193,7 +213,7 @@ pub fn via_bytes(f: &FactSet, version: u8) -> (Vec<u8>, Built) {
         f,
         &EncodeOpts {
             version,
-            emit_empty_parent_records: true, parent_record_order: None
+            emit_empty_parent_records: true, parent_record_order: None, split_parent_records: None
         },
     );
     let b = from_bytes(&bytes);
@@ -209,6 +229,7 @@ pub fn via_bytes_variant(f: &FactSet, version: u8, rng: &mut Rng) -> (Vec<u8>, B
             version,
             emit_empty_parent_records: rng.chance(2, 3),
             parent_record_order: if rng.chance(1, 2) { Some(rng.next_u64()) } else { None },
+            split_parent_records: if rng.chance(1, 3) { Some(rng.next_u64()) } else { None },
         },
     );
     let b = from_bytes(&bytes);
